@@ -1,4 +1,8 @@
 // ---- appended by /verif (engine K): byte-level codec contracts, reader side + round trips (property C15) ----
+// Harnesses in this file that are NOT listed in suite.json (never completed under the 12 GB / time budget;
+// kept for machines with more memory): roundtrip_7bit_all_usize (CBMC: "Solver ran out of memory during
+// propositional reduction" after ~400 s), roundtrip_7bit_two_values, parse_u32_arbitrary_11_bytes,
+// selftest_roundtrip_off_by_one.
 #[cfg(kani)]
 mod verif_import {
     use super::super::export::verif_export::{enc7, esc, spec_unescape, Sink};
@@ -8,6 +12,39 @@ mod verif_import {
     /// building it symbolically is out of CBMC's reach)
     fn stub_format(_args: core::fmt::Arguments<'_>) -> String {
         String::new()
+    }
+
+    /// replaces the crate's error helper `err` (import.rs) in the ROUND-TRIP harnesses only: same
+    /// `ErrorKind`, no boxed message (the heap-allocated payloads make the SAT instance exceed the
+    /// 12 GB cap; which error is returned is irrelevant there because these harnesses assert that
+    /// NO error occurs)
+    fn stub_err<T>(_msg: impl Into<Box<dyn std::error::Error + Send + Sync>>) -> io::Result<T> {
+        Err(io::ErrorKind::InvalidData.into())
+    }
+
+    /// Minimal in-memory reader (harness side): yields the bytes of `buf` one by one.  Cheaper for
+    /// CBMC than std's `impl BufRead for &[u8]`; used by the full-width round trip only.
+    struct Rd<'a> {
+        buf: &'a [u8],
+        pos: usize,
+    }
+    impl io::Read for Rd<'_> {
+        fn read(&mut self, out: &mut [u8]) -> io::Result<usize> {
+            if out.is_empty() || self.pos >= self.buf.len() {
+                return Ok(0);
+            }
+            out[0] = self.buf[self.pos];
+            self.pos += 1;
+            Ok(1)
+        }
+    }
+    impl io::BufRead for Rd<'_> {
+        fn fill_buf(&mut self) -> io::Result<&[u8]> {
+            Ok(&self.buf[self.pos..])
+        }
+        fn consume(&mut self, n: usize) {
+            self.pos += n;
+        }
     }
 
     // ------------------------------------------------------------------ specification
@@ -50,9 +87,37 @@ mod verif_import {
     /// the bytes the encoder wrote.  Unwind 12 > 10 code bytes: complete for 64-bit usize.
     #[kani::proof]
     #[kani::unwind(12)]
+    #[kani::stub(alloc::fmt::format, stub_format)]
+    #[kani::stub(super::err, stub_err)]
     fn roundtrip_7bit_all_usize() {
         let x: usize = kani::any();
         let mut s = Sink::<20>::new();
+        let w = enc7(&mut s, x);
+        assert!(w.is_ok());
+        core::mem::forget(w);
+        let mut inp = Rd { buf: &s.buf[..s.len], pos: 0 };
+        let r = decode_7bit(&mut inp);
+        match r {
+            Ok(v) => assert!(v == x, "decode(encode(x)) == x"),
+            Err(e) => {
+                core::mem::forget(e);
+                assert!(false, "decoder accepts everything the encoder writes");
+            }
+        }
+        assert!(inp.pos == s.len, "decoder consumes exactly what the encoder wrote");
+        kani::cover!(s.len >= 10, "full-width code reachable");
+        kani::cover!(x == usize::MAX, "usize::MAX reachable");
+    }
+
+    /// Quick-tier variant of the round trip: x < 2^21 (codes of at most 3 bytes).
+    #[kani::proof]
+    #[kani::unwind(5)]
+    #[kani::stub(alloc::fmt::format, stub_format)]
+    #[kani::stub(super::err, stub_err)]
+    fn roundtrip_7bit_below_2_pow_21() {
+        let x: usize = kani::any();
+        kani::assume(x < (1 << 21));
+        let mut s = Sink::<6>::new();
         let w = enc7(&mut s, x);
         assert!(w.is_ok());
         core::mem::forget(w);
@@ -66,14 +131,16 @@ mod verif_import {
             }
         }
         assert!(inp.is_empty(), "decoder consumes exactly what the encoder wrote");
-        kani::cover!(s.len >= 10, "full-width code reachable");
-        kani::cover!(x == usize::MAX, "usize::MAX reachable");
+        kani::cover!(x == (1 << 21) - 1, "assumed region, upper end");
+        kani::cover!(s.len == 6, "three escaped bytes");
     }
 
     /// Same with trailing data: two values written back to back are read back in order (the
     /// decoder must not read past the end of a code; this is how node records are laid out).
     #[kani::proof]
     #[kani::unwind(12)]
+    #[kani::stub(alloc::fmt::format, stub_format)]
+    #[kani::stub(super::err, stub_err)]
     fn roundtrip_7bit_two_values() {
         let (x, y): (usize, usize) = (kani::any(), kani::any());
         let mut s = Sink::<40>::new();
@@ -155,10 +222,10 @@ mod verif_import {
         let mut inp: &[u8] = &buf[..];
         let r = decode_7bit(&mut inp);
         if let Spec::Valid { val, .. } = spec_decode(&buf) {
+            kani::cover!(val > usize::MAX as u128, "too-large code reachable");
             if val > usize::MAX as u128 {
                 assert!(r.is_err(), "value exceeds usize::MAX: must be Err(\"integer too large\"), not Ok(wrapped)");
             }
-            kani::cover!(val > usize::MAX as u128, "too-large code reachable");
         }
         core::mem::forget(r);
     }
@@ -168,7 +235,7 @@ mod verif_import {
     /// read_unescape on arbitrary input of length 0, 1, 2, 3: never panics, agrees with the
     /// format's escape table, consumes 1 or 2 bytes on success; truncated / invalid => Err.
     #[kani::proof]
-    #[kani::unwind(4)]
+    #[kani::unwind(6)]
     #[kani::stub(alloc::fmt::format, stub_format)]
     fn read_unescape_arbitrary() {
         let buf: [u8; 3] = kani::any();
@@ -205,6 +272,8 @@ mod verif_import {
     /// and the reader stops exactly at the end.
     #[kani::proof]
     #[kani::unwind(8)]
+    #[kani::stub(alloc::fmt::format, stub_format)]
+    #[kani::stub(super::err, stub_err)]
     fn escape_roundtrip_len3() {
         let data: [u8; 3] = kani::any();
         let mut s = Sink::<6>::new();
@@ -334,6 +403,7 @@ mod verif_import {
     /// selftest: wrong postcondition (claims decode is the identity on the first byte) -- must be refuted
     #[kani::proof]
     #[kani::unwind(12)]
+    #[kani::stub(alloc::fmt::format, stub_format)]
     fn selftest_roundtrip_off_by_one() {
         let x: usize = kani::any();
         let mut s = Sink::<20>::new();
